@@ -61,7 +61,6 @@ func main() {
 			fmt.Println("ERROR load:", err)
 			os.Exit(1)
 		}
-		dbg(p)
 		for _, n := range pos {
 			f := p.Func(n)
 			if f == nil {
